@@ -272,6 +272,7 @@ func runC26(c *Ctx) {
 		cur = cl.Call.Args[0]
 	}
 	c.Floor("C26.tables.decode_rows", len(decRe), 9)
+	c26LengthTables(c, p, decRe)
 
 	// escape loop: base of the chain is phi(format | ReplaceAll(phi, string(ch), "\\"+string(ch)))
 	var escAlloc *ssa.Alloc
